@@ -116,7 +116,7 @@ func compareWholeDB(o *hx.Oracle, path string, db *sqlittle.DB, low *sdb.Databas
 					for _, si := range s.Indexes {
 						found := false
 						for _, ix := range t.Indexes {
-							if strings.EqualFold(ix.Name, si.Index) {
+							if hx.SameName(ix.Name, si.Index) {
 								found = true
 							}
 						}
@@ -140,7 +140,7 @@ func compareWholeDB(o *hx.Oracle, path string, db *sqlittle.DB, low *sdb.Databas
 		}
 		var want []string
 		for _, t := range meta.Tables {
-			want = append(want, strings.ToLower(t.Name))
+			want = append(want, hx.FoldName(t.Name))
 		}
 		var got []string
 		for _, t := range ts {
